@@ -73,3 +73,68 @@ func InstallGates(observe func(point string), gates ...*Gate) (remove func()) {
 		}
 	}
 }
+
+// Barrier parks every goroutine that reaches Point until N of them have arrived (or Timeout
+// elapses for the waiting ones), then lets all of them - and every later arrival - through.
+// It forces "all workers are at this point at the same moment".
+type Barrier struct {
+	Point   string
+	N       int32
+	Timeout time.Duration
+
+	count    atomic.Int32
+	full     chan struct{}
+	fullOnce sync.Once
+	TimedOut atomic.Bool
+}
+
+func NewBarrier(point string, n int32, timeout time.Duration) *Barrier {
+	return &Barrier{Point: point, N: n, Timeout: timeout, full: make(chan struct{})}
+}
+
+// Full is closed once N goroutines have arrived.
+func (b *Barrier) Full() <-chan struct{} { return b.full }
+
+func (b *Barrier) hit() {
+	if b.count.Add(1) >= b.N {
+		b.fullOnce.Do(func() { close(b.full) })
+		return
+	}
+	select {
+	case <-b.full:
+	case <-time.After(b.Timeout):
+		b.TimedOut.Store(true)
+	}
+}
+
+// InstallHooks installs a handler dispatching yield points to gates and barriers.
+func InstallHooks(observe func(point string), gates []*Gate, barriers []*Barrier) (remove func()) {
+	byPoint := map[string][]*Gate{}
+	for _, g := range gates {
+		byPoint[g.Point] = append(byPoint[g.Point], g)
+	}
+	bars := map[string][]*Barrier{}
+	for _, b := range barriers {
+		bars[b.Point] = append(bars[b.Point], b)
+	}
+	verifhook.Set(func(point string) {
+		if observe != nil {
+			observe(point)
+		}
+		for _, b := range bars[point] {
+			b.hit()
+		}
+		for _, g := range byPoint[point] {
+			g.hit()
+		}
+	})
+	return func() {
+		verifhook.Clear()
+		for _, g := range gates {
+			g.Open()
+		}
+		for _, b := range barriers {
+			b.fullOnce.Do(func() { close(b.full) })
+		}
+	}
+}
